@@ -1,3 +1,91 @@
-From HbsLms Require Import Base.Bytes.
-Theorem placeholder_C01 : @length byte [] = 0%nat.
-Proof. reflexivity. Qed.
+(* C01 -- every signature the library releases verifies under the matching public key.
+   Only statements; proofs in Proofs/{CompleteProofs,CodecProofs,HssComplete,KeyBlobProofs,SignProofs}.v.
+   The theorems hold for EVERY hash function H with n-byte output (hence for SHA-256/256, /192,
+   /128 and SHAKE256/256, /192, /128), every parameter list the API can construct within the
+   build limits (1..8 levels, any mix of Winternitz parameters and tree heights), every seed,
+   every message and every counter value. *)
+From HbsLms Require Import Base.Bytes Model.Consts Model.KeyBlob Model.Hss Model.SignCore.
+From HbsLms Require Import Proofs.KeyBlobProofs Proofs.SignProofs Proofs.CompleteProofs Gen.Generated.
+From HbsLms Require Import Model.Lmots Model.Lms.
+
+Local Open Scope N_scope.
+
+Definition hash_sizes : list nat := [16%nat; 24%nat; 32%nat].
+
+(* obligation on the constants and tables of the current source, decided by computation *)
+Lemma source_model_ok : forallb (model_ok K_src) hash_sizes = true.
+Proof. vm_compute. reflexivity. Qed.
+
+Lemma model_ok_n n : In n hash_sizes -> model_ok K_src n = true.
+Proof. intros Hn. pose proof source_model_ok as S. rewrite forallb_forall in S. now apply S. Qed.
+
+(* LM-OTS: Algorithm 4b applied to an Algorithm 3 signature gives the public key; any constants *)
+Theorem C01_lmots_complete :
+  forall (K : consts) (n : nat) (H : bytes -> bytes) (I : bytes) (q : N) (seed : bytes)
+         (prm : otsp) (C msg : bytes),
+    ots_candidate K n H I q prm C (ots_sign_ys K n H I q seed prm C msg) msg
+    = ots_pub K n H I q seed prm.
+Proof. exact lmots_complete. Qed.
+
+(* LMS: the recomputed leaf and the authentication path lead to the root, any height, any leaf *)
+Theorem C01_lms_complete :
+  forall (K : consts) (n : nat) (H : bytes -> bytes) (I seed : bytes) (prm : otsp) (lp : lmsp)
+         (q : N) (C msg : bytes),
+    q < 2 ^ N.of_nat (l_h lp) ->
+    lms_candidate K n H I prm lp q C (ots_sign_ys K n H I q seed prm C msg)
+                  (auth_path K n H I seed prm lp q) msg
+    = lms_root K n H I seed prm lp.
+Proof. exact lms_complete. Qed.
+
+(* HSS, through the public entry points: key generation, then signing at ANY counter value
+   (also right after a lower tree was exhausted), then verification *)
+Theorem C01_released_signature_verifies :
+  forall (n : nat) (H : bytes -> bytes),
+    In n hash_sizes -> (forall x, length (H x) = n) ->
+    forall (ps : list param) (seed sk pk : bytes) (c : N) (msg : bytes)
+           (cb : bytes -> bool) (sig : bytes) (calls : list (bytes * bool)),
+      Forall (fun p => In p (tbl_params K_src n)) ps -> length seed = n ->
+      keygen K_src n H ps seed = Ok (sk, pk) ->
+      c < 256 ^ N.of_nat (c_used_leafs_size K_src) ->
+      sign_core K_src n H (with_counter K_src sk c) msg cb = (Ok sig, calls) ->
+      hss_verify K_src n H msg sig pk = Ok tt.
+Proof.
+  intros n H Hn HL ps seed sk pk c msg cb sig calls.
+  exact (sign_then_verify K_src n (model_ok_n n Hn) H HL ps seed sk pk c msg cb sig calls).
+Qed.
+
+(* and signing does succeed at every counter value when the callback accepts *)
+Theorem C01_signing_succeeds :
+  forall (n : nat) (H : bytes -> bytes),
+    In n hash_sizes -> (forall x, length (H x) = n) ->
+    forall (ps : list param) (seed sk pk : bytes) (c : N) (msg : bytes) (cb : bytes -> bool),
+      Forall (fun p => In p (tbl_params K_src n)) ps -> length seed = n ->
+      keygen K_src n H ps seed = Ok (sk, pk) ->
+      c < 256 ^ N.of_nat (c_used_leafs_size K_src) ->
+      (forall b, cb b = true) ->
+      exists sig next, sign_core K_src n H (with_counter K_src sk c) msg cb = (Ok sig, [(next, true)]).
+Proof.
+  intros n H Hn HL ps seed sk pk c msg cb.
+  exact (sign_succeeds K_src n (model_ok_n n Hn) H HL ps seed sk pk c msg cb).
+Qed.
+
+(* non-vacuity: the constructible parameter pairs of the current source, per hash size *)
+Example ex_C01_tbl_params :
+  map (fun n => length (tbl_params K_src n)) hash_sizes = [24%nat; 24%nat; 24%nat].
+Proof. vm_compute. reflexivity. Qed.
+
+Check C01_released_signature_verifies :
+  forall (n : nat) (H : bytes -> bytes),
+    In n hash_sizes -> (forall x, length (H x) = n) ->
+    forall (ps : list param) (seed sk pk : bytes) (c : N) (msg : bytes)
+           (cb : bytes -> bool) (sig : bytes) (calls : list (bytes * bool)),
+      Forall (fun p => In p (tbl_params K_src n)) ps -> length seed = n ->
+      keygen K_src n H ps seed = Ok (sk, pk) ->
+      c < 256 ^ N.of_nat (c_used_leafs_size K_src) ->
+      sign_core K_src n H (with_counter K_src sk c) msg cb = (Ok sig, calls) ->
+      hss_verify K_src n H msg sig pk = Ok tt.
+
+Print Assumptions C01_lmots_complete.
+Print Assumptions C01_lms_complete.
+Print Assumptions C01_released_signature_verifies.
+Print Assumptions C01_signing_succeeds.
